@@ -287,3 +287,14 @@ Theorem to_json_default_date_is_source : forall fmt dumps_md c tid now g,
   gen_to_json fmt dumps_md c tid now g None = gen_to_json fmt dumps_md c tid now g (Some now).
 Proof. reflexivity. Qed.
 Print Assumptions to_json_default_date_is_source.
+
+(* the streamed variant (direct_io truthy) is regenerated too; it is not bridged for all tables
+   (the hand model has the streamed writer as a tree only).  On the witness table the text it
+   writes reads back as exactly the hand-written streamed tree, key order included. *)
+Example gen_direct_ex_table :
+  match gen_to_json_direct ex_fmt ex_dumps ex_table (K "None") (K "x") (str_of_json (j_genby ex_table))
+              (Some (str_of_json (j_date ex_table))) with
+  | ROk t => parse_json ex_scan 40 t = Some (to_json_tree_direct ex_table (K "None"))
+  | RErr _ => False
+  end.
+Proof. vm_compute. reflexivity. Qed.
